@@ -48,6 +48,7 @@ Step(ev) ==
       [] ev.e = "Ret" ->
             /\ o' = RetEff(ev.g, ev.k, ev.n, ev.m, ev.err)
             /\ Judge(ev, CASE ev.k = "Next" -> ReadRetViol(ev.g, ev.err, ev.m, ev.m)
+                           [] ev.k = "Until" -> (IF ev.m = 0 THEN {"C04.read_returned_wrong_bytes"} ELSE {})
                            [] ev.k = "Write" -> WriteRetViol(ev.g, ev.err, ev.n, ev.m, OthersFlushing(ev.g))
                            [] ev.k \in {"Close", "Detach"} -> (IF ev.err # "nil" THEN {"C12.close_returned_error"} ELSE {})
                            [] OTHER -> {})
